@@ -28,15 +28,13 @@ THEOREMS = [
     "Cog.Sem.C11_counterexample_explicit_null_array_of_structs",
     "Cog.Sem.C11_counterexample_explicit_null_map_of_structs",
     "Cog.Sem.C11_counterexample_explicit_null_union",
-    "Cog.Sem.C11_counterexample_nested_map_shadowed_key",
-    "Cog.Sem.C11_counterexample_nested_map_wrong_entry",
+    "Cog.Sem.C11_nested_map_in_fragment",
     "Cog.Sem.C11_counterexample_optional_default_emitted",
     "Cog.Sem.C11_counterexample_optional_constant_emitted",
     "Cog.Sem.C11_counterexample_empty_optional_list_differs_from_go",
     "Cog.Sem.C11_counterexample_required_absent_default",
 ]
 HARNESS_FILES = HARNESS_BASE + ["lab_*.go", "src_*.go", "c01.go", "c11_*.go"]
-PROPOSED = os.path.join(WORK, "proposed_findings_C11.json")
 
 
 def canon(text):
@@ -119,12 +117,7 @@ def write_replay_input(rp, path):
 
 def main():
     c = Check("C11")
-    # findings proposed by this check and not merged yet are honoured like committed ones
-    proposed = json.load(open(PROPOSED)) if os.path.exists(PROPOSED) else BUILTIN_FINDINGS
-    have = {f["id"] for f in c.known}
-    for f in proposed.get("findings", []):
-        if f.get("property") == "C11" and f["id"] not in have:
-            c.known.append(f)
+    # known findings: /verif/known_findings.json only (Check loads the entries of this property)
     c.trusted = [
         "Lean 4.33 kernel; axioms per theorem are listed in obligation_list (subset of propext, Classical.choice, Quot.sound)",
         "PROVED for all schemas/types/documents/fuel: round trip of the model of generated Python on `pyDen` (lean/Cog/Sem/PyDen.lean) and JSON-equality of Python's and Go's outputs on `den` ∩ `pyDen`; NOT proved: that front-ends + Python pass chain map a source-valid document into `pyDen` (covered by this check's correspondence on source-valid documents only; the evidence counts the documents inside the fragment)",
@@ -292,285 +285,5 @@ def sexp_to_json(s):
         raise ValueError(head)
     return json.dumps(val(), ensure_ascii=False, separators=(",", ":"))
 
-# Findings proposed by this check (copy of /verif/.work/proposed_findings_C11.json, used when that file is
-# absent; `python3 checks/c11.py --write-proposed` rewrites the file from this copy).
-BUILTIN_FINDINGS = json.loads(r'''{
- "findings": [
-  {
-   "id": "C11/python/from_json/explicit-null-for-optional-struct-raises",
-   "property": "C11",
-   "what": "generated Python `from_json` calls `X.from_json(data[\"k\"])` whenever the key is present: an explicit `null` for a nullable struct-typed member raises TypeError (`argument of type 'NoneType' is not iterable`) instead of decoding to None; when the class has only constant members no `in` test is emitted and `X.from_json(None)` returns `X()`: the null is replaced by an object holding the constants",
-   "match": "FAIL (py-error class=TypeError|py-reenc-differs class=null-member-replaced|py-go-differ class=python-replaces-null) at=(\\S*/)?field\\([^)]*nullable[^)]*\\)/struct\\b",
-   "pinned": {
-    "pin": "explicit-null-optional-struct",
-    "formats": [
-     "jsonschema",
-     "openapi",
-     "cue"
-    ],
-    "defs": "(defs \"Root\" (\"Root\" (struct (field \"name\" (string - - false) true false -) (field \"child\" (ref \"Node\") false true -))) (\"Node\" (struct (field \"v\" (int 64 true - -) false false -))))",
-    "docs": [
-     "{\"name\":\"x\",\"child\":null}",
-     "{\"name\":\"x\",\"child\":{\"v\":1}}",
-     "{\"name\":\"x\"}"
-    ],
-    "document": "{\"name\":\"x\",\"child\":null}"
-   },
-   "lean_witness": "Cog.Sem.C11_counterexample_explicit_null_struct, Cog.Sem.C11_full_roundtrip_counterexample"
-  },
-  {
-   "id": "C11/python/from_json/explicit-null-for-optional-union-raises",
-   "property": "C11",
-   "what": "an explicit `null` for a nullable member whose type is a discriminated union raises TypeError (`'NoneType' object is not subscriptable`): the decoding map is indexed with `data[\"k\"][\"<discriminator>\"]` unconditionally",
-   "match": "FAIL py-error class=TypeError at=(\\S*/)?field\\([^)]*nullable[^)]*\\)/oneOfStructs\\b",
-   "pinned": {
-    "pin": "explicit-null-optional-union",
-    "formats": [
-     "jsonschema",
-     "openapi",
-     "cue"
-    ],
-    "defs": "(defs \"Root\" (\"Root\" (struct (field \"name\" (string - - false) true false -) (field \"shape\" (oneOfStructs \"kind\" (\"a\" \"A\") (\"b\" \"B\")) false true -))) (\"A\" (struct (field \"kind\" (const (s \"a\")) true false -) (field \"r\" (int 64 true - -) false false -))) (\"B\" (struct (field \"kind\" (const (s \"b\")) true false -) (field \"w\" (string - - false) false false -))))",
-    "docs": [
-     "{\"name\":\"x\",\"shape\":null}",
-     "{\"name\":\"x\",\"shape\":{\"kind\":\"b\",\"w\":\"q\"}}"
-    ],
-    "document": "{\"name\":\"x\",\"shape\":null}"
-   },
-   "lean_witness": "Cog.Sem.C11_counterexample_explicit_null_union"
-  },
-  {
-   "id": "C11/python/from_json/explicit-null-for-optional-array-of-non-scalars-raises",
-   "property": "C11",
-   "what": "an explicit `null` for a nullable array whose items are not scalars (objects, enums, unions, arrays, maps; with CUE also `time.Time`, which arrives as a reference to a `Time` object) raises TypeError (`'NoneType' object is not iterable`): `[… for item in data[\"k\"]]` is emitted without a None check (arrays of scalars are passed through and are fine)",
-   "match": "FAIL py-error class=TypeError at=(\\S*/)?field\\([^)]*nullable[^)]*\\)/array\\((struct|enumS|enumI|oneOfStructs|oneOfScalars|array|dict|datetime)",
-   "pinned": {
-    "pin": "explicit-null-optional-array-of-structs",
-    "formats": [
-     "jsonschema",
-     "openapi",
-     "cue"
-    ],
-    "defs": "(defs \"Root\" (\"Root\" (struct (field \"name\" (string - - false) true false -) (field \"items\" (array (ref \"Node\")) false true -))) (\"Node\" (struct (field \"v\" (int 64 true - -) false false -))))",
-    "docs": [
-     "{\"name\":\"x\",\"items\":null}",
-     "{\"name\":\"x\",\"items\":[{\"v\":1},{}]}"
-    ],
-    "document": "{\"name\":\"x\",\"items\":null}"
-   },
-   "lean_witness": "Cog.Sem.C11_counterexample_explicit_null_array_of_structs"
-  },
-  {
-   "id": "C11/python/from_json/explicit-null-for-optional-map-of-non-scalars-raises",
-   "property": "C11",
-   "what": "an explicit `null` for a nullable map whose values are not scalars raises AttributeError (`'NoneType' object has no attribute 'keys'`): `{key: … for key in data[\"k\"].keys()}` is emitted without a None check",
-   "match": "FAIL py-error class=AttributeError at=(\\S*/)?field\\([^)]*nullable[^)]*\\)/dict\\((struct|enumS|enumI|oneOfStructs|oneOfScalars|array|dict|datetime)",
-   "pinned": {
-    "pin": "explicit-null-optional-dict-of-structs",
-    "formats": [
-     "jsonschema",
-     "openapi",
-     "cue"
-    ],
-    "defs": "(defs \"Root\" (\"Root\" (struct (field \"name\" (string - - false) true false -) (field \"byKey\" (dict (ref \"Node\")) false true -) (field \"items\" (array (ref \"Node\")) false false -))) (\"Node\" (struct (field \"v\" (int 64 true - -) false false -))))",
-    "docs": [
-     "{\"name\":\"x\",\"byKey\":null}",
-     "{\"name\":\"x\",\"byKey\":{\"k\":{\"v\":2}}}"
-    ],
-    "document": "{\"name\":\"x\",\"byKey\":null}"
-   },
-   "lean_witness": "Cog.Sem.C11_counterexample_explicit_null_map_of_structs"
-  },
-  {
-   "id": "C11/python/from_json/nested-map-comprehension-shadows-key",
-   "property": "C11",
-   "what": "a map nested directly in a map of non-scalar values is decoded by `{key: {key: D(data[k][key][key]) for key in data[k][key].keys()} for key in data[k].keys()}`: every comprehension variable is named `key`, so the inner body reads `data[k][inner][inner]` — KeyError when the inner key is not also an outer key, and silently the WRONG entry when it is (grid.b.a receives grid.a.a)",
-   "match": "FAIL (py-error class=KeyError at=\\S*dict\\(dict\\(\\S*/nested-dict|py-reenc-differs class=(string-changed|number-changed|other|value-dropped|bigint\\S*|absent-member-emitted|null-member-replaced|empty-collection\\S*) at=(\\S*/)?dict/dict(/\\S*)? |py-go-differ class=python-changes-value:\\S+ at=(\\S*/)?dict/dict(/\\S*)? )",
-   "pinned": {
-    "pin": "nested-dict-of-structs",
-    "formats": [
-     "jsonschema",
-     "openapi",
-     "cue"
-    ],
-    "defs": "(defs \"Root\" (\"Root\" (struct (field \"name\" (string - - false) true false -) (field \"grid\" (dict (dict (ref \"Node\"))) false false -) (field \"items\" (array (ref \"Node\")) false false -))) (\"Node\" (struct (field \"v\" (int 64 true - -) false false -))))",
-    "docs": [
-     "{\"name\":\"x\",\"grid\":{\"k1\":{\"k2\":{\"v\":1}}}}",
-     "{\"name\":\"x\",\"grid\":{\"a\":{\"a\":{\"v\":1}},\"b\":{\"a\":{\"v\":2}}}}",
-     "{\"name\":\"x\",\"grid\":{\"a\":{\"a\":{\"v\":1}}}}"
-    ],
-    "document": "{\"name\":\"x\",\"grid\":{\"k1\":{\"k2\":{\"v\":1}}}} (KeyError) and {\"name\":\"x\",\"grid\":{\"a\":{\"a\":{\"v\":1}},\"b\":{\"a\":{\"v\":2}}}} (grid.b.a.v becomes 1)"
-   },
-   "lean_witness": "Cog.Sem.C11_counterexample_nested_map_shadowed_key, Cog.Sem.C11_counterexample_nested_map_wrong_entry"
-  },
-  {
-   "id": "C11/python/init/optional-member-with-default-emitted-when-absent",
-   "property": "C11",
-   "what": "an optional member that declares a default and is absent from the document is given the default by `__init__` and then emitted by `to_json` (`is not None`): the re-encoded document has a member the original lacks, and differs from what the Go SDK emits (Go leaves the pointer nil and omits the member)",
-   "match": "FAIL py-(reenc-differs class=absent-member-emitted|go-differ class=python-adds-member) at=(\\S*/)?field\\(optional[^)]*\\+default\\)/",
-   "pinned": {
-    "pin": "optional-absent-with-default",
-    "formats": [
-     "jsonschema",
-     "openapi",
-     "cue"
-    ],
-    "defs": "(defs \"Root\" (\"Root\" (struct (field \"name\" (string - - false) true false -) (field \"note\" (int 64 true - -) false false (n \"7\")))))",
-    "docs": [
-     "{\"name\":\"x\"}",
-     "{\"name\":\"x\",\"note\":3}"
-    ],
-    "document": "{\"name\":\"x\"}"
-   },
-   "lean_witness": "Cog.Sem.C11_counterexample_optional_default_emitted"
-  },
-  {
-   "id": "C11/python/init/constant-member-emitted-when-absent-or-null",
-   "property": "C11",
-   "what": "a member whose type admits one value (constant, one-member enum, degenerate range) is assigned in `__init__` and never read from the document: when it is optional and absent, or nullable and given as `null`, `to_json` still emits the constant (Go omits it / emits null)",
-   "match": "FAIL py-(reenc-differs class=(absent-member-emitted|null-member-replaced)|go-differ class=python-(adds-member|replaces-null)) at=(\\S*/)?field\\([^)]*\\)/const\\b",
-   "pinned": {
-    "pin": "optional-constant-absent",
-    "formats": [
-     "jsonschema",
-     "openapi",
-     "cue"
-    ],
-    "defs": "(defs \"Root\" (\"Root\" (struct (field \"name\" (string - - false) true false -) (field \"x\" (const (n \"72\")) false false -))))",
-    "docs": [
-     "{\"name\":\"x\"}",
-     "{\"name\":\"x\",\"x\":72}"
-    ],
-    "document": "{\"name\":\"x\"}"
-   },
-   "lean_witness": "Cog.Sem.C11_counterexample_optional_constant_emitted"
-  },
-  {
-   "id": "C11/python/init/explicit-null-replaced-by-default",
-   "property": "C11",
-   "what": "for members of kind ref/enum/array/map/union `__init__` emits `self.x = x if x is not None else <default>`: an explicit `null` for a nullable member that also has a default is replaced by the default and emitted (for scalar members `None` is kept)",
-   "match": "FAIL py-(reenc-differs class=null-member-replaced|go-differ class=python-replaces-null) at=(\\S*/)?field\\([^)]*nullable\\+default\\)/(enumS|enumI|array|dict|struct|oneOf)",
-   "pinned": {
-    "pin": "null-replaced-by-default",
-    "formats": [
-     "jsonschema",
-     "openapi",
-     "cue"
-    ],
-    "defs": "(defs \"Root\" (\"Root\" (struct (field \"name\" (string - - false) true false -) (field \"mode\" (enumS \"a\" \"b\") true true (s \"b\")) (field \"tags\" (array (string - - false)) false true (a (s \"u\"))))))",
-    "docs": [
-     "{\"name\":\"x\",\"mode\":null}",
-     "{\"name\":\"x\",\"mode\":\"a\",\"tags\":null}",
-     "{\"name\":\"x\",\"mode\":\"a\",\"tags\":[\"w\"]}"
-    ],
-    "document": "{\"name\":\"x\",\"mode\":null} (cue) / {\"name\":\"x\",\"mode\":\"a\",\"tags\":null} (jsonschema)"
-   }
-  },
-  {
-   "id": "C11/go/omitempty/optional-empty-collection-only-in-python",
-   "property": "C11",
-   "what": "an optional array/map given as `[]`/`{}`: Python keeps it, the Go SDK drops it (`omitempty`, C01/omitempty/optional-empty-collection-dropped) — the two SDKs emit different JSON for the same document",
-   "match": "FAIL py-go-differ class=empty-collection-only-in-python at=(\\S*/)?field\\(optional[^)]*\\)/(array|dict)\\b",
-   "pinned": {
-    "pin": "optional-empty-collections",
-    "formats": [
-     "jsonschema",
-     "openapi",
-     "cue"
-    ],
-    "defs": "(defs \"Root\" (\"Root\" (struct (field \"name\" (string - - false) true false -) (field \"tags\" (array (string - - false)) false false -) (field \"m\" (dict (int 64 true - -)) false false -))))",
-    "docs": [
-     "{\"name\":\"x\",\"tags\":[]}",
-     "{\"name\":\"x\",\"m\":{}}",
-     "{\"name\":\"x\",\"tags\":[\"a\"],\"m\":{\"k\":1}}"
-    ],
-    "document": "{\"name\":\"x\",\"tags\":[]}"
-   },
-   "lean_witness": "Cog.Sem.C11_counterexample_empty_optional_list_differs_from_go, Cog.Sem.C11_full_agree_counterexample"
-  },
-  {
-   "id": "C11/go/cue/array-of-uint8-is-bytes",
-   "property": "C11",
-   "what": "CUE `[...uint8]` becomes Go `[]uint8` = `[]byte`, which encoding/json writes as a base64 string; Python keeps the list of numbers (C01/cue/array-of-uint8-is-bytes seen from the wire)",
-   "match": "FAIL py-go-differ class=go-changes-value:array-became-string at=\\S*array\\(int8u\\) .*format=cue",
-   "pinned": {
-    "pin": "cue-array-of-uint8",
-    "formats": [
-     "cue"
-    ],
-    "defs": "(defs \"Root\" (\"Root\" (struct (field \"name\" (string - - false) true false -) (field \"b\" (array (int 8 false - -)) true false -))))",
-    "docs": [
-     "{\"name\":\"x\",\"b\":[1,2,3]}"
-    ],
-    "document": "{\"name\":\"x\",\"b\":[1,2,3]}"
-   }
-  },
-  {
-   "id": "C11/go/cue/nullable-union-of-structs-not-discriminated",
-   "property": "C11",
-   "what": "CUE `null | #A | #B`: the Go chain does not discriminate the union (C01/cue/nullable-union-of-structs-not-discriminated) and the Go SDK loses the branch's members; Python passes the dict through — outputs differ",
-   "match": "FAIL py-go-differ class=(go-lacks-document-member|empty-collection-only-in-python) at=\\S*\\+nullable[^)]*\\)/oneOfStructs/\\S* .*format=cue",
-   "pinned": {
-    "pin": "explicit-null-optional-union",
-    "formats": [
-     "jsonschema",
-     "openapi",
-     "cue"
-    ],
-    "defs": "(defs \"Root\" (\"Root\" (struct (field \"name\" (string - - false) true false -) (field \"shape\" (oneOfStructs \"kind\" (\"a\" \"A\") (\"b\" \"B\")) false true -))) (\"A\" (struct (field \"kind\" (const (s \"a\")) true false -) (field \"r\" (int 64 true - -) false false -))) (\"B\" (struct (field \"kind\" (const (s \"b\")) true false -) (field \"w\" (string - - false) false false -))))",
-    "docs": [
-     "{\"name\":\"x\",\"shape\":null}",
-     "{\"name\":\"x\",\"shape\":{\"kind\":\"b\",\"w\":\"q\"}}"
-    ],
-    "document": "{\"name\":\"x\",\"shape\":{\"kind\":\"b\",\"w\":\"q\"}}"
-   }
-  },
-  {
-   "id": "C11/cue/required-member-with-default-absent",
-   "property": "C11",
-   "what": "CUE `a: int64 | *5` accepts a document without `a` (unification supplies the default): Python emits `a: 5` (constructor default), Go emits `a: 0` (zero value) — neither reproduces the document, and they disagree with each other",
-   "match": "FAIL py-(reenc-differs class=absent-member-emitted|go-differ class=both-differ:number-changed) at=field\\(required\\+default\\)/\\S+ .*format=cue pin=required-absent-with-default-cue",
-   "pinned": {
-    "pin": "required-absent-with-default-cue",
-    "formats": [
-     "cue"
-    ],
-    "defs": "(defs \"Root\" (\"Root\" (struct (field \"name\" (string - - false) true false -) (field \"a\" (int 64 true - -) true false (n \"5\")))))",
-    "docs": [
-     "{\"name\":\"x\"}",
-     "{\"name\":\"x\",\"a\":9}"
-    ],
-    "document": "{\"name\":\"x\"}"
-   },
-   "lean_witness": "Cog.Sem.C11_counterexample_required_absent_default",
-   "note": "only replayed from the pinned corpus: the document generator never omits a required member"
-  },
-  {
-   "id": "C11/python/init/struct-default-overrides-constant-member",
-   "property": "C11",
-   "what": "a struct-valued default (CUE `#Child | *{items: 7.75, opts: -70}`) that names a member whose type admits one value is printed as `Child(items=7.75, opts=-70)`, but constant members are not constructor parameters: every `from_json` of a document that leaves the member out raises `TypeError: Child.__init__() got an unexpected keyword argument 'opts'` (lab known-bad KB06, third variant)",
-   "match": "FAIL py-error class=TypeError at=\\S+ .*reply=err TypeError: \\w+\\.__init__\\(\\) got an unexpected keyword argument",
-   "pinned": {
-    "pin": "struct-default-overrides-constant-member",
-    "formats": [
-     "cue"
-    ],
-    "defs": "(defs \"Root\" (\"Root\" (struct (field \"name\" (string - - false) true false -) (field \"value\" (ref \"Child\") false false (o (\"items\" (n \"7.75\")) (\"opts\" (n \"-70\")))))) (\"Child\" (struct (field \"items\" (num 64 - -) true false -) (field \"opts\" (int 8 true -70 -70) true false -))))",
-    "docs": [
-     "{\"name\":\"x\"}",
-     "{\"name\":\"x\",\"value\":{\"items\":1,\"opts\":-70}}"
-    ],
-    "document": "{\"name\":\"x\"}"
-   },
-   "note": "the Lean model answers `err` for such documents (pyDefault: override of a constant field)"
-  }
- ]
-}''')
 
-
-if "--write-proposed" in sys.argv:
-    with open(PROPOSED, "w") as fh:
-        json.dump(BUILTIN_FINDINGS, fh, indent=1, ensure_ascii=False)
-    print("wrote", PROPOSED)
-    sys.exit(0)
 main()
